@@ -79,7 +79,8 @@ ASSUMPTIONS = [
 REQUIRED = {
 	"ohe_roundtrips": 2000, "ohe_with_ignored": 200, "illegal_rejected": 200,
 	"boundscheck_active": 1, "boundscheck_cases": 200,
-	"rc_strings": 2000, "rc_tensors": 500,
+	"rc_strings": 2000, "rc_tensors": 500, "rc_maps_enumerated": 40,
+	"rc_histories": 50, "rc_history_prior_raises": 30,
 	"unchunk_k1_overlap": 50, "unchunk_k2": 50, "unchunk_k3": 50,
 	"unchunk_many": 50, "unchunk_odd_overlap": 50, "unchunk_3lead": 50,
 	"unchunk_multi_seq": 50,
@@ -680,13 +681,18 @@ def own_decode(t, keys):
 	return "".join(out)
 
 
-def rc_check(utils, mapname, s, dtname, composed=False):
-	"""-> None | (mech, detail)"""
-	pairs = MAPS[mapname]
+def rc_check(utils, mapname, s, dtname, composed=False, pairs=None,
+	cmap_obj=None, use_default=None):
+	"""-> None | (mech, detail).  pairs: explicit map (mapname 'custom');
+	cmap_obj: the dict object to hand to the package (call histories on one
+	caller-owned dict); use_default: force / forbid the default argument."""
+	pairs = pairs if pairs is not None else MAPS[mapname]
 	cmap = {k: v for k, v in pairs}     # insertion order = tensor row order
 	keys = [k for k, v in pairs]
-	kw = {} if mapname == "dna" and len(s) % 2 == 0 else {
-		"complement_map": cmap}
+	if use_default is None:
+		use_default = mapname == "dna" and len(s) % 2 == 0
+	kw = {} if use_default else {"complement_map": cmap if cmap_obj is None
+		else cmap_obj}
 	want = own_rc(s, cmap)
 	w = {"complement_map": pairs, "sequence": s, "dtype": dtname}
 	st, got = gen.call(utils.reverse_complement, s, **kw)
@@ -746,12 +752,71 @@ def rc_check(utils, mapname, s, dtname, composed=False):
 	return None
 
 
+def involutions(n):
+	"""All involutions of range(n) as lists."""
+	def rec_(free, cur):
+		if not free:
+			yield dict(cur)
+			return
+		a = free[0]
+		rest = free[1:]
+		for x in rec_(rest, cur + [(a, a)]):
+			yield x
+		for j, b in enumerate(rest):
+			for x in rec_(rest[:j] + rest[j + 1:], cur + [(a, b), (b, a)]):
+				yield x
+	for d in rec_(list(range(n)), []):
+		yield [d[i] for i in range(n)]
+
+
+INV_KEYS = "ACGTWSRY"
+
+
+def case_rchist(cls, params, rec):
+	"""A call history on ONE complement map object (the package default or a
+	caller-owned dict): calls that are rejected or served come first, then
+	the full string/tensor agreement check must still pass with that same
+	object."""
+	utils = get_utils(False, rec)
+	pairs = params["pairs"]
+	keys = [k for k, v in pairs]
+	default = params["default"]
+	cmap_obj = None if default else {k: v for k, v in pairs}
+	kw = {} if default else {"complement_map": cmap_obj}
+	outcomes = []
+	for op in params["ops"]:
+		if op[0] == "str":
+			st, v = gen.call(utils.reverse_complement, op[1], **dict(kw,
+				**op[2]))
+		else:
+			x = torch.zeros((op[1], op[2]), dtype=torch.int8)
+			if op[1] and op[2]:
+				x[0] = 1
+			st, v = gen.call(utils.reverse_complement, x, **kw)
+		outcomes.append(st)
+	rec.count("rc_history_prior_raises", outcomes.count("raise"))
+	res = None
+	for s_ in params["probe"]:
+		res = rc_check(utils, "custom", s_, params["dtype"], composed=True,
+			pairs=pairs, cmap_obj=cmap_obj, use_default=default)
+		if res is not None:
+			break
+	if res is None:
+		rec.count("rc_histories")
+		rec.held(cls, params, nontrivial=outcomes.count("raise") > 0)
+	else:
+		rec.violation(cls, params, dict(res[1], prior_calls=[list(map(str, o))
+			for o in params["ops"]], prior_outcomes=outcomes,
+			map_object="package default" if default else "caller-owned dict "
+			"reused across the calls"), mech=res[0] + "-after-history")
+
+
 def case_rc(cls, params, rec):
 	utils = get_utils(False, rec)
 	res = rc_check(utils, params["map"], params["s"], params["dtype"],
-		composed=params.get("composed", False))
+		composed=params.get("composed", False), pairs=params.get("pairs"))
 	s = params["s"]
-	cmap = dict(MAPS[params["map"]])
+	cmap = dict(params.get("pairs") or MAPS[params["map"]])
 	if res is None:
 		rec.held(cls, params, nontrivial=own_rc(s, cmap) != s)
 	else:
@@ -761,7 +826,7 @@ def case_rc(cls, params, rec):
 def case_rct(cls, params, rec):
 	"""Tensor with distinct cell values: out[c, p] == in[comp(c), L-1-p]."""
 	utils = get_utils(False, rec)
-	pairs = MAPS[params["map"]]
+	pairs = params.get("pairs") or MAPS[params["map"]]
 	cmap = {k: v for k, v in pairs}
 	keys = [k for k, v in pairs]
 	A, L = len(keys), params["L"]
@@ -834,6 +899,74 @@ def run_rc(unit, rec):
 		rec.setadd("rc_maps", mapname)
 		rec.maxv("rc_max_exhaustive_length", L)
 		rec.mark_exhaustive(cls)
+	elif what == "involutions":
+		# every complement map on n characters (every involution of the row
+		# order), every string up to length 3 over it + N
+		n = unit["n"]
+		keys = INV_KEYS[:n]
+		cls = "rc-all-maps"
+		cnt = nt = 0
+		sample = None
+		for k, inv in enumerate(involutions(n)):
+			pairs = [[keys[i], keys[inv[i]]] for i in range(n)]
+			cmap = dict(pairs)
+			rec.count("rc_maps_enumerated")
+			for L in range(0, unit["Lmax"] + 1):
+				for idx, tup in enumerate(itertools.product(keys + "N",
+					repeat=L)):
+					s = "".join(tup)
+					dtname = RC_DT[(idx + k + L) % len(RC_DT)]
+					p = {"kind": "rc", "map": "custom", "pairs": pairs, "s": s,
+						"dtype": dtname, "composed": idx % 4 == 0}
+					res = rc_check(utils, "custom", s, dtname,
+						composed=p["composed"], pairs=pairs)
+					if res is None:
+						cnt += 1
+						nt += own_rc(s, cmap) != s
+						sample = p
+					else:
+						rec.violation(cls, p, res[1], mech=res[0])
+			for L in (1, 2, 5):
+				case_rct("rc-all-maps-values", {"kind": "rct", "map": "custom",
+					"pairs": pairs, "L": L, "vseed": k % 2,
+					"dtype": ["int64", "float32", "float64"][k % 3]}, rec)
+		if cnt:
+			rec.bulk_held(cls, cnt, nt, sample=sample)
+		rec.count("rc_strings", cnt)
+		rec.mark_exhaustive(cls)
+	elif what == "history":
+		r = gen.pyrng(ID, unit["seed"], "rchist", unit["k"])
+		for it in range(unit["n"]):
+			if it % 2 == 0:
+				pairs, default = MAPS["dna"], it % 4 == 0
+			else:
+				n = r.randint(2, 6)
+				keys = INV_KEYS[:n]
+				inv = r.choice(list(involutions(n)))
+				pairs = [[keys[i], keys[inv[i]]] for i in range(n)]
+				default = False
+			keys = "".join(k for k, v in pairs)
+			foreign = [c for c in "UZXBacgtn*- " if c not in keys]
+			ops = []
+			for j in range(r.randint(1, 3)):
+				q = r.random()
+				body = gen.rand_seq(r, r.randint(0, 6), keys + "N")
+				if q < .45:
+					pos = r.randint(0, len(body))
+					ops.append(["str", body[:pos] + r.choice(foreign) +
+						body[pos:], {"allow_N": r.random() < .7}])
+				elif q < .6:
+					ops.append(["str", body + "N", {"allow_N": False}])
+				elif q < .8:
+					ops.append(["str", body, {}])
+				else:
+					ops.append(["tensor", r.choice([len(keys), len(keys) + 1,
+						max(1, len(keys) - 1)]), r.randint(0, 4)])
+			probe = [gen.rand_seq(r, r.randint(1, 8), keys + "N")
+				for _ in range(2)] + [keys + "N"]
+			case_rchist("rc-history", {"kind": "rchist", "pairs": pairs,
+				"default": default, "ops": ops, "probe": probe,
+				"dtype": r.choice(RC_DT)}, rec)
 	elif what == "tensor":
 		k = 0
 		for mapname in MAPS:
@@ -1274,6 +1407,8 @@ def run_case(cls, params, rec):
 		case_rc(cls, params, rec)
 	elif kind == "rct":
 		case_rct(cls, params, rec)
+	elif kind == "rchist":
+		case_rchist(cls, params, rec)
 	elif kind == "chunk":
 		chunk_call(cls, params, rec)
 	elif kind == "pipeline":
@@ -1352,6 +1487,12 @@ def plan(tier, seed):
 			units.append({"cls": "rc", "what": "exh", "map": mapname, "L": L,
 				"weight": 1 + Q ** L / 100})
 	units.append({"cls": "rc", "what": "tensor", "seed": seed, "weight": 10})
+	for n in range(1, (5 if quick else 6) + 1):
+		units.append({"cls": "rc", "what": "involutions", "n": n,
+			"Lmax": 3 if n < 6 else 2, "weight": 2 + 3 ** n / 4})
+	for k in range(2 if quick else 16):
+		units.append({"cls": "rc", "what": "history", "seed": seed, "k": k,
+			"n": 60 if quick else 200, "weight": 6})
 	for k in range(2 if quick else 16):
 		units.append({"cls": "rc", "what": "long", "seed": seed, "k": k,
 			"n": 20 if quick else 60, "Lmax": 10000 if quick else 100000,
